@@ -227,6 +227,10 @@ class TFLiteSupportedOperators:
         # Pack specific checks:
         self.specific_constraints[Op.Pack].append(TFLiteSupportedOperators.constraint_pack_ofm_batch)
 
+        # Split type ops are exempt from the IFM batch size check, but only the first batch of their outputs is copied
+        for op_type in TFLiteSupportedOperators.split_ops - set((Op.UnpackReshaped,)):
+            self.specific_constraints[op_type].append(TFLiteSupportedOperators.constraint_split_ofm_batch)
+
         # Conv specific ops:
         for op_type in TFLiteSupportedOperators.convolution_ops:
             self.specific_constraints[op_type].append(TFLiteSupportedOperators.constraint_stride_width_no_upper_limit)
@@ -542,6 +546,20 @@ class TFLiteSupportedOperators:
         batch_size = full_shape(4, op.ofm.shape, 1)[0]
         valid = batch_size == 1
         return valid, f"Tensor '{op.ofm.name}' has batch size: {batch_size}"
+
+    @staticmethod
+    def constraint_split_ofm_batch(op):
+        "OFM Tensor batch size must be 1"
+        valid = True
+        extra = []
+        for tens in op.outputs:
+            if tens is not None:
+                batch_size = full_shape(4, tens.shape, 1)[0]
+                if batch_size != 1:
+                    valid = False
+                    extra.append(f"Tensor '{tens.name}' has batch size: {batch_size}")
+        extra = "\n   ".join(extra)
+        return valid, extra
 
     @staticmethod
     def constraint_batch_size(op):
